@@ -113,7 +113,15 @@ impl InferShapes for Div {
     ) -> Result<Vec<SymTensor>, InferShapesError> {
         let div = |x: &SymExpr, y: &SymExpr| {
             Some(match (x, y) {
-                (SymExpr::Value(x), SymExpr::Value(y)) if *y != 0 => SymExpr::Value(x / y),
+                (SymExpr::Value(x), SymExpr::Value(y)) if *y != 0 => {
+                    // Values may come from float tensors whose elements are
+                    // integers. Integer and float division only agree if the
+                    // division is exact.
+                    if x.checked_rem(*y) != Some(0) {
+                        return None;
+                    }
+                    SymExpr::Value(x.checked_div(*y)?)
+                }
                 _ => x.clone() / y.clone(),
             })
         };
